@@ -53,7 +53,8 @@ CHECKS = [
          note='Trusted base: the statement-level symbolic executor (bearverif/symstmt.py), the z3 transcription of Python '
               'argument binding (c04.reference_bind, written from the language reference), the class universe. Bounds: <= 3 '
               'parameters quick / <= 4 thorough, <= 6 positional arguments, keyword names = parameter names + 2 foreign names; '
-              'signatures are enumerated (every legal kind order x annotated subset x default pattern), call shapes, argument '
+              'signatures are enumerated (every legal kind order x annotated subset x default pattern, plus variants in which one '
+              'parameter carries an annotation beartype ignores -- object / Any -- so that position and number of checked parameters differ), call shapes, argument '
               'classes, callee result and callee-raises are solver variables. sat models are replayed on a real decorated '
               'function against inspect.signature.bind + isinstance.',
          text='For each enumerated signature the real wrapper is executed symbolically and the solver shows, for every call '
@@ -143,7 +144,8 @@ CHECKS = [
     dict(id='C09', engine='G', cat='translation_validation', ref='4/C09',
          technique='SMT (z3) cost term over item-reading AST nodes with unbounded symbolic container length',
          text='Fast path: the translator attaches a cost to every item read (x[i], next(iter(x)), mapping lookups; len for '
-              'any linear builtin); cost(x,r) > K(H) is unsat with len(x) an unconstrained non-negative integer, and '
+              'any linear builtin; full materialisations such as list(x), tuple(x), [*x], [*x.values()] are modelled as a scan of weight '
+              'len(x) whose copy stays indexable); cost(x,r) > K(H) is unsat with len(x) an unconstrained non-negative integer, and '
               'non-collection iterables are never read.'),
     dict(id='C10', engine='G', cat='translation_validation', ref='4/C10',
          technique='SMT (z3) effect predicates (consume one-shot iterator, defaultdict insertion, mutating call) over the generated code',
